@@ -17,7 +17,7 @@ RETARGETS = [(0, 0), (220, 0), (220, 100), (100, 220)]
 def gen_eom(rng: random.Random) -> dict:
     ctrl = rng.choice([["BLUE"], ["RED"], ["BLUE", "RED"], ["RED", "BLUE"]])
     return dict(
-        mod_bandwidth=rng.choice([20, 40, 60]),
+        mod_bandwidth=rng.choice([4, 20, 40, 60]),   # 4/20: EOMs slower than a 40 MHz channel (F32, F17)
         limiting_beam=rng.choice(["BLUE", "RED"]),
         max_limiting_amp=rng.choice([20.0, 40.0, 62.83]),
         intermediate_detuning=rng.choice([400.0, 700.0, 2800.0]),
@@ -399,6 +399,13 @@ class HistoryGen:
                 amp = 0.0
             det_on = round(r.uniform(-10, 10), 3) if r.random() < 0.7 else 0.0
             optimal = r.choice([0.0, 0.0, round(r.uniform(-40, 40), 2)])
+            real = getattr(self, "_real", None)
+            if real is not None and r.random() < 0.25:
+                # make detuning_off exactly 0: idle time in EOM mode is then a plain delay,
+                # the only way to get non-pulse instructions on a channel in EOM mode (F32)
+                opts = real.eom_oracle(n, amp, 0.0, 0.0)["opts"]
+                if opts:
+                    det_on, optimal = -r.choice(opts), 0.0
             corr = (not self.exact) and r.random() < 0.4
             return dict(k=k, ch=n, amp=amp, det_on=det_on, optimal=optimal, corr=corr)
         if k == "eomoff":
@@ -522,6 +529,7 @@ class HistoryGen:
     def feedback(self, op: dict, status: str, real) -> None:
         """Update the tracker from the real sequence after the op."""
         t = self.t
+        self._real = real
         if op["k"] == "declare":
             t.next_user += 1
         t.measured = real.seq.is_measured()
